@@ -58,7 +58,7 @@ files = G.corpus_files()
 cfgs = ['default', 'tab/79', '2sp/20', '4sp/200']
 found = {}
 for i in range(N):
-    code = G.hostile(rng, files, trig=.3) if i % 3 else (G.file_text(rng.choice(files)) or '')
+    code = G.hostile(rng, files, trig=.3)
     wit = {'version': harness.VERSIONS[i % 9], 'code': code, 'config': cfgs[i % 4]}
     for s in sites(wit):
         if s not in found or len(code) < len(found[s]['code']):
